@@ -281,6 +281,17 @@ class Unit:
         if isinstance(e, ast.Call) and isinstance(e.func, ast.Name) and e.func.id in self.spec.get('token_ctors', {}):
             t, ty = self.spec['token_ctors'][e.func.id]
             return self.coerce(t, ty, want)
+        if isinstance(e, ast.Dict):
+            if any(k is None or not (isinstance(k, ast.Constant) and isinstance(k.value, str)) for k in e.keys):
+                raise Untranslatable('dict literal keys')
+            items = [f'(VStr {coq_str(k.value)}, {self.expr(v, env, "val")[0]})' for k, v in zip(e.keys, e.values)]
+            return self.coerce('(VDict [' + '; '.join(items) + '])', 'val', want)
+        if isinstance(e, ast.Call) and isinstance(e.func, ast.Name) and e.func.id == 'str' and len(e.args) == 1 \
+                and not e.keywords:
+            a, ta = self.expr(e.args[0], env)
+            if ta != 'exn':
+                raise Untranslatable(f'str() of {ta}')
+            return self.coerce(f'(exn_message {a})', 'string', want)
         if isinstance(e, ast.List):
             if want is None or not want.startswith('list '):
                 want_el = 'val'
@@ -309,6 +320,14 @@ class Unit:
             return (f'(Some {t})', want)
         if want == 'val' and ty == 'string':
             return (f'(VStr {t})', 'val')
+        if want == 'val' and ty == 'Z':
+            return (f'(VInt {t})', 'val')
+        if want == 'val' and ty == 'bool':
+            return (f'(VBool {t})', 'val')
+        if want == 'val' and ty == 'exn':
+            return (f'(exn_val {t})', 'val')
+        if want == 'val' and ty == 'option Z':
+            return (f'(match {t} with Some z => VInt z | None => VNone end)', 'val')
         if want == 'val' and ty == 'option val':
             return (f'(match {t} with Some v => v | None => VNone end)', 'val')
         raise Untranslatable(f'type {ty} where {want} expected')
@@ -492,6 +511,46 @@ class Unit:
             nx = self.new(x + '_')
             self.assign_log.append(x)
             return f'({m_lift(mode)} {term} {s} (fun {nx} => {cont(s, {**env, x: (nx, ty)})}))'
+        # x = {... 'k': <context read> [if c else pure] ...}: the read is hoisted (the other members are pure)
+        if isinstance(st, ast.Assign) and len(st.targets) == 1 and isinstance(st.targets[0], ast.Name) \
+                and isinstance(st.value, ast.Dict) and mode[0] in ('eff', 'effv') \
+                and any(self.eff_term(v, env, s) is not None for v in st.value.values):
+            values, binds = [], []
+            for v in st.value.values:
+                et = self.eff_term(v, env, s)
+                if et is None:
+                    values.append(v)
+                else:
+                    tmp = self.new('member_')
+                    binds.append((tmp, et))
+                    values.append(ast.Name(id=tmp, ctx=ast.Load()))
+            env2 = dict(env)
+            for tmp, (term, ty) in binds:
+                env2[tmp] = (tmp, ty)
+            lit = ast.Dict(keys=st.value.keys, values=values)
+            t, ty = self.expr(lit, env2)
+            x = st.targets[0].id
+            nx = self.new(x + '_')
+            self.assign_log.append(x)
+            body = f'(let {nx} := {t} in {cont(s, {**env, x: (nx, ty)})})'
+            for tmp, (term, ty2) in reversed(binds):
+                body = f'({m_lift(mode)} {term} {s} (fun {tmp} => {body}))'
+            return body
+        # x = context.setdefault(K, []); x.append(v)   (x not used afterwards)
+        if isinstance(st, ast.Assign) and len(st.targets) == 1 and isinstance(st.targets[0], ast.Name) \
+                and isinstance(st.value, ast.Call) and ast.unparse(st.value.func) == 'context.setdefault' \
+                and len(st.value.args) == 2 and isinstance(st.value.args[1], ast.List) and not st.value.args[1].elts \
+                and rest and isinstance(rest[0], ast.Expr) and isinstance(rest[0].value, ast.Call) \
+                and ast.unparse(rest[0].value.func) == st.targets[0].id + '.append' and len(rest[0].value.args) == 1 \
+                and mode[0] == 'eff':
+            x = st.targets[0].id
+            if any(isinstance(n, ast.Name) and n.id == x for r in rest[1:] for n in ast.walk(r)):
+                raise Untranslatable('list from setdefault used after the append')
+            kx = self.expr(st.value.args[0], env, 'string')[0]
+            v = self.expr(rest[0].value.args[0], env, 'val')[0]
+            s2 = self.new('s')
+            after = self.block(rest[1:], s2, {**env, '__eff__': ('', 'flag')}, cur, k, mode)
+            return f'(andthen (ctx_list_append {kx} {v} {s}) (fun {s2} => {after}))'
         # x = factory(name)(kw=...): an object built by a registered factory (None = outside the model)
         if isinstance(st, ast.Assign) and len(st.targets) == 1 and isinstance(st.targets[0], ast.Name) \
                 and isinstance(st.value, ast.Call) and isinstance(st.value.func, ast.Call) \
@@ -1285,7 +1344,18 @@ WHILE_LOOP = {
     'methods': {'while_loop': {'kind': 'eff', 'coq': 'gen_while_loop', 'params': []}},
     'order': ['while_loop'],
 }
-UNITS = [STEPSRUNNER, STEP, RETRY, WHILE, PIPELINE, PYPE, STEP_FOREACH, STEP_RUN, POLL, STEP_IN, STEP_COUNTERS, RETRY_LOOP, WHILE_LOOP]
+STEP_SAVE = {
+    'file': 'pypyr/dsl.py', 'cls': 'Step', 'section': 'GenStepSaveError',
+    'variables': [('sp', 'step', 'self')],
+    'attrs': {'on_error': ('(s_onerror sp)', 'option val'), 'line_no': ('(option_map fst (s_pos sp))', 'option Z'),
+              'line_col': ('(option_map snd (s_pos sp))', 'option Z'), 'name': ('(s_name sp)', 'string')},
+    'functions': {'get_error_name': ('exn_error_name', 'exn', 'string')},
+    'fields': {}, 'ctors': {}, 'obj_methods': {},
+    'methods': {'save_error': {'kind': 'eff', 'coq': 'gen_save_error',
+                               'params': [('exception', 'exn'), ('swallowed', 'bool')]}},
+    'order': ['save_error'],
+}
+UNITS = [STEPSRUNNER, STEP, RETRY, WHILE, PIPELINE, PYPE, STEP_FOREACH, STEP_RUN, POLL, STEP_IN, STEP_COUNTERS, RETRY_LOOP, WHILE_LOOP, STEP_SAVE]
 
 
 def pure_call_hook(unit):
